@@ -179,6 +179,8 @@ type Scenario struct {
 	ToPanelCap    int  // capacity of the msgsToPanel channel (0 = unbuffered)
 	SharedBacking bool // all lists of one submitter are sub-slices of ONE array with spare capacity behind each of them
 	NilToPanel    bool // ConnectToPanel is given a nil msgsToPanel channel (a listen-only client)
+	Alone         bool // nothing else runs in this process meanwhile (package-level state of the library - a shared cache, a pool - would otherwise be disturbed by the other scenarios' traffic, which can HIDE a defect: seed C09-14's one-slot frame cache only hits when no other message is encoded in between)
+	SameObjects   bool // every submitter reuses ONE message object per list position: before each submission the objects are overwritten in place with that submission's content (how an application keeps "the state of button 7"); use with a Delay that lets the previous list reach the panel
 	FloodKB       int  // an extra submitter hands in 32 KiB graphics states (not listed in the case) from SubStart on until that many KiB are in or the context ends
 }
 
@@ -200,10 +202,13 @@ func (sc *Scenario) knobSuffix() string {
 	if sc.NilToPanel {
 		s += "-NILTP"
 	}
+	if sc.SameObjects {
+		s += "-SAMEOBJ"
+	}
 	return s
 }
 
-var knobRe = regexp.MustCompile(`-(PF|PT|CAP|FLOOD)(\d+)|-(SHARED|NILTP)`)
+var knobRe = regexp.MustCompile(`-(PF|PT|CAP|FLOOD)(\d+)|-(SHARED|NILTP|SAMEOBJ)`)
 
 func (sc *Scenario) parseKnobs() {
 	for _, m := range knobRe.FindAllStringSubmatch(sc.ID, -1) {
@@ -221,6 +226,8 @@ func (sc *Scenario) parseKnobs() {
 			sc.SharedBacking = true
 		case m[3] == "NILTP":
 			sc.NilToPanel = true
+		case m[3] == "SAMEOBJ":
+			sc.SameObjects = true
 		}
 	}
 }
@@ -411,9 +418,20 @@ func runScenario(sc *Scenario) []Sx {
 						}
 					}
 					time.Sleep(time.Duration(sc.SubStart) * time.Millisecond)
+					var objs []*rwp.InboundMessage // SameObjects: the application's long-lived message objects
 					for _, s := range list {
 						if s.Delay > 0 {
 							time.Sleep(time.Duration(s.Delay) * time.Millisecond)
+						}
+						if sc.SameObjects {
+							for len(objs) < len(s.Msgs) {
+								objs = append(objs, &rwp.InboundMessage{})
+							}
+							for j, m := range s.Msgs {
+								proto.Reset(objs[j])
+								proto.Merge(objs[j], m)
+							}
+							s.Msgs = objs[:len(s.Msgs):len(s.Msgs)]
 						}
 						select {
 						case toPanel <- s.Msgs:
@@ -902,13 +920,13 @@ func runBatch(scs []*Scenario, par int) {
 	sem := make(chan struct{}, par)
 	var wg sync.WaitGroup
 	for i := range scs { // memory-measuring scenarios run alone
-		if scs[i].MeasureMem || scs[i].HookDelay > 0 {
+		if scs[i].MeasureMem || scs[i].HookDelay > 0 || scs[i].Alone {
 			ev := runScenario(scs[i])
 			results[i].line = sxString(scs[i].caseSx(ev))
 		}
 	}
 	for i := range scs {
-		if scs[i].MeasureMem || scs[i].HookDelay > 0 {
+		if scs[i].MeasureMem || scs[i].HookDelay > 0 || scs[i].Alone {
 			continue
 		}
 		wg.Add(1)
